@@ -3,7 +3,7 @@
     by non-trivial grids. *)
 From Coq Require Import Ascii String List Bool PArith NArith FMapPositive Permutation Lia.
 From PTBase Require Import Exn PyStr.
-From P Require Import Assoc GridEdit GridLemmas Inv InvRock InvBlock InvConn InvRename InvReorder Reach.
+From P Require Import Assoc GridEdit GridLemmas Inv InvRock InvBlock InvConn InvRename InvReorder InvMinc InvAdd InvEmbed InvDec Reach.
 Import ListNotations.
 Open Scope list_scope.
 
@@ -85,3 +85,74 @@ Proof.
   intros i i' Hi Hi' E. vm_compute in Hi, Hi'.
   destruct Hi as [<-|[<-|[]]]; destruct Hi' as [<-|[<-|[]]]; try reflexivity; vm_compute in E; discriminate E.
 Qed.
+
+(** ** grids that share a heap: minc, __add__, embed *)
+Definition d1n : str := s2l "  d 1".
+Definition a3n : str := s2l "3 a 1".
+(** naming functions in the style of the defaults: matrix block ['1' + name[1:]], rock type ['X' + name[1:]] *)
+Definition mb1 (n : str) (m : nat) : str := match m with O => n | _ => "1"%char :: tl n end.
+Definition mr1 (n : str) (m : nat) : str := match m with O => n | _ => "X"%char :: tl n end.
+
+(** a second grid (blocks c and d, connected) built next to [g_pair], from an empty [t2grid()] *)
+Definition g_cd : grid := result (run (with_view g_pair view0) [AddRock r1; AddBlock c1n r1; AddBlock d1n r1; AddConn c1n d1n]).
+Definition h_cd : view := view_of g_cd.
+(** the first grid, seen after the second one was built *)
+Definition g_ab : grid := with_view g_cd (view_of g_pair).
+Lemma g_ab_inv : Inv g_ab.
+Proof. apply inv_b_sound. vm_compute. reflexivity. Qed.
+Lemma h_cd_inv : Inv (with_view g_ab h_cd).
+Proof. apply inv_b_sound. vm_compute. reflexivity. Qed.
+
+(** the hypotheses of [grid_add_inv] / [pre _ (AddGrid _ _)] are met by two disjoint connected pairs;
+    the sum holds all four blocks and both connections *)
+Example add_disjoint_pre : pre g_ab (AddGrid h_cd false).
+Proof. split; [exact h_cd_inv|]. apply common_name_false. vm_compute. reflexivity. Qed.
+Example add_disjoint_result :
+  exists r, step g_ab (AddGrid h_cd false) = Ok r /\ map (bn r) (blist r) = [a1; b1; c1n; d1n] /\ length (clist r) = 2%nat.
+Proof. eexists. split; [vm_compute; reflexivity|]. vm_compute. auto. Qed.
+(** ... and by a grid added to itself (every block name is common, every block is shared) *)
+Example add_self_pre : pre g_pair (AddGrid (view_of g_pair) false).
+Proof. split; [rewrite with_view_of; exact g_pair_inv|apply same_name_self; exact g_pair_inv]. Qed.
+
+(** finding add_block:replaces-connected-block through [__add__]: the other grid has a block named like
+    a connected block of this one; the sum keeps the connection but not the block it joins *)
+Definition g_a2 : grid := result (run (with_view g_pair view0) [AddRock r1; AddBlock a1 r1]).
+Theorem grid_add_overlap_refuted :
+  exists g h r, Inv g /\ Inv (with_view g h) /\ grid_add g (view_of g) h = Ok r /\ ~ Inv r.
+Proof.
+  exists (with_view g_a2 (view_of g_pair)), (view_of g_a2), (result (grid_add (with_view g_a2 (view_of g_pair)) (view_of g_pair) (view_of g_a2))).
+  split; [apply inv_b_sound; vm_compute; reflexivity|]. split; [apply inv_b_sound; vm_compute; reflexivity|].
+  split; [vm_compute; reflexivity|].
+  intro X. pose proof (i_ends _ X 4%positive) as K. vm_compute in K.
+  destruct (K (or_introl eq_refl)) as [[E|[E|[]]] _]; discriminate E.
+Qed.
+
+(** minc refuses two fracture blocks that generate the same matrix block name (and a name already in the grid) *)
+Example minc_colliding_matrix_names_refused :
+  exists g, run empty [AddRock r1; AddBlock a1 r1; AddBlock a3n r1] = Ok g /\
+            minc mb1 mr1 1 [] [] g = Raise PlainException /\ minc mb1 mr1 1 [a1] [] g <> Raise PlainException.
+Proof. eexists. split; [vm_compute; reflexivity|]. split; [vm_compute; reflexivity|]. vm_compute. discriminate. Qed.
+
+(** a sequence that mixes the three with ordinary edits meets [pre_all]: MINC on the pair, the other pair
+    added, a swap rename across the two, a block deleted, then the result embedded ... into nothing new
+    (an empty sub-grid), with a connection between two of its own blocks *)
+Ltac grid_step :=
+  match goal with
+  | |- _ /\ _ => split
+  | |- forall g, step _ _ = Ok g -> _ =>
+      let g := fresh "g" in let H := fresh "H" in
+      intros g H; vm_compute in H; inversion H; subst g; clear H
+  | |- True => exact I
+  | |- Inv _ => apply inv_b_sound; vm_compute; reflexivity
+  | |- same_name_same_block _ _ _ => apply common_name_false; vm_compute; reflexivity
+  | |- inj_on_blocks _ _ => let i := fresh in let i' := fresh in let Hi := fresh in let Hi' := fresh in let E := fresh in
+      intros i i' Hi Hi' E; vm_compute in Hi, Hi';
+      repeat (destruct Hi as [<-|Hi]; [|]); try contradiction;
+      repeat (destruct Hi' as [<-|Hi']; [|]); try contradiction; try reflexivity; vm_compute in E; discriminate E
+  end.
+Definition ops_mix : list op :=
+  [Minc mb1 mr1 1 [] []; AddGrid h_cd false; Rename [(a1, c1n); (c1n, a1)]; DelBlock b1; Embed view0 2%positive 7%positive true].
+Example mixed_sequence_pre : pre_all g_ab ops_mix.
+Proof. cbn [pre_all ops_mix pre]. repeat grid_step. Qed.
+Example mixed_sequence_runs : exists g', run g_ab ops_mix = Ok g' /\ length (blist g') = 5%nat /\ length (clist g') = 3%nat.
+Proof. eexists. split; [vm_compute; reflexivity|]. vm_compute. auto. Qed.
